@@ -13,7 +13,8 @@ META = dict(
     engine="Metadata",
     technique="TLA+ state machine of the client's metadata cache, candidate iteration and the simulated cluster "
               "(spec/Metadata.tla) model-checked exhaustively by TLC with the clauses as invariants; TLC-generated "
-              "behaviours (world mutation, requested topics, unreachable endpoints per refresh) replayed on a real "
+              "behaviours (world mutation, requested topics, per refresh the candidates that do not answer and how each of them "
+              "misbehaves) replayed on a real "
               "sarama Client against MockBrokers; TLC (spec/MetadataTrace.tla) folds the metadata responses the mocks "
               "really served into the reference view (spec/MetadataView.tla) and compares the result of every read API "
               "after every step, and of concurrent readers during refreshes",
@@ -23,14 +24,19 @@ META = dict(
          "replica sets changing, brokers added / removed / re-addressed, controller moving, full vs per-topic refreshes, "
          "and every unreachable subset of the candidates in every order the client may try them. All 2-step behaviours "
          "(quick: 1-step exhaustively + seeded simulation of 2- and 3-step ones) are executed on the real client "
-         "(request versions v5, v1, v0; unreachable = refused / broken mid-request / silent); after every step Topics, "
+         "(request versions v5, v1, v0; a candidate that does not answer refuses the connection / breaks mid-request / takes "
+         "the request and closes (EOF) / answers non-Kafka bytes / answers a well-framed response with a wrong correlation id / "
+         "answers a well-framed body with trailing bytes / stays silent until Net.ReadTimeout - for NewClient and for "
+         "RefreshMetadata on a running client); after every step Topics, "
          "Partitions, WritablePartitions, Leader, Replicas, InSyncReplicas, OfflineReplicas, Brokers and Controller are "
          "read for every topic/partition and TLC compares them with the fold of the served responses. In the concurrent "
          "family 4 reader goroutines hammer the read APIs while one refresher runs; each read must equal the view before "
          "or after that refresh.",
     note="bounded universe; reads during the sequential families happen with every endpoint reachable; "
          "Metadata.Retry.Max=1 (with 0 a dead seed is not retried in the same refresh); unreachability is injected at the "
-         "Net.Proxy.Dialer boundary (refused / reset mid-write) and by silent mock handlers; MockBroker, harness and TLC trusted",
+         "Net.Proxy.Dialer boundary (refused dial, reset mid-write, EOF, garbage bytes, wrong correlation id, trailing bytes) and by "
+         "silent mock handlers; the order in which the real client tries the candidates is its own (seed shuffle, map order): every "
+         "order is explored in the model, the replay covers them by repetition; MockBroker, harness and TLC trusted",
     design_ref="6/C15",
 )
 
@@ -59,12 +65,14 @@ def run(ctx):
     if thorough:
         gens = [("Metadata.gen.content2.cfg", None, None, None),
                 ("Metadata.gen.reach1.cfg", None, None, None),
+                ("Metadata.gen.silent1.cfg", None, None, 40),
                 ("Metadata.gen.content3.cfg", "num=8000", 40, 8000),
                 ("Metadata.gen.reach3.cfg", "num=4000", 60, 4000),
                 ("Metadata.gen.conc.cfg", "num=300", 40, 300)]
     else:
         gens = [("Metadata.gen.content1.cfg", None, None, None),
-                ("Metadata.gen.reach1.cfg", None, None, None),
+                ("Metadata.gen.reach1.cfg", None, None, 1500),
+                ("Metadata.gen.silent1.cfg", None, None, 6),
                 ("Metadata.gen.content2.cfg", None, None, 2500),
                 ("Metadata.gen.content3.cfg", "num=400", 40, 400),
                 ("Metadata.gen.reach3.cfg", "num=250", 60, 250),
